@@ -21,7 +21,7 @@ TDSUB = [(r'Traits::region_extension_type', 'XV_REGION_EXT', 'traits_region_exte
          (r'Traits::abandon_strategy::apply', 'ABANDON_apply', 'traits_abandon'),
          (r'detail::delete_objects', 'DELETE_OBJECTS', 'delete_objects'),
          (r'\bconstexpr\b', 'const', 'constexpr'),
-         (r'std::min<int>', 'XV_MIN_INT', 'min_int'),
+         (r'std::min<int>', 'XV_MIN_INT', 'min_int'), (r'std::min<epoch_t>', 'XV_MIN_EPOCH', 'min_epoch'),
          (r'(\((?:[^()]|\([^()]*\))*\)|\b\w+) % number_epochs', r'XV_MOD_NE(\1)', 'mod_number_epochs')]
 TDMETH = {'empty': 'RL_empty', 'steal': 'RL_steal', 'push': 'RL_push', 'size': 'RL_size', 'add': 'OL_add', 'adopt': 'OL_adopt',
           'release_entry': 'TBL_release_entry', 'acquire_entry': 'TBL_acquire_entry', 'scan': 'SCAN_scan', 'reset': 'SCAN_reset',
@@ -35,7 +35,11 @@ def TD(**kw):
 def _repo_text():
     p = os.path.join(os.environ.get('XV_REPO', '/repo'), IMPL)
     return open(p, newline='').read() if os.path.exists(p) else ''
-REPAIRED = 'adopt_orphans' in _repo_text()      # the repaired tree (fix_orphans.diff) splits reclaim_orphans; both texts are handled
+_T = _repo_text()
+# the unit handles the current text and the repaired texts (fix_*.diff): the repairs change which rules fire
+FIX_ORPHANS = 'adopt_orphans' in _T                  # fix_orphans.diff: reclaim_orphans becomes adopt_orphans, called before the CAS
+FIX_DISTANCE = 'std::min<epoch_t>' in _T             # fix_epoch_distance.diff
+FIX_LAZY = _T.count('region_extension::lazy') > 1    # fix_lazy_region.diff: leave_region tests the flag for region_extension::lazy
 
 ABSUB = [(r'\bretire_list\b', '(*retire_list_p)', 'list_ref'), (r'\borphans\b', '(*orphans_p)', 'orphans_ref'), (r'\bThreshold\b', 'XV_THRESHOLD', 'threshold')]
 
@@ -74,8 +78,9 @@ SOURCES = [
     TD(id='enter_region', sig=r'void enter_region\(\)', c_sig='static void td_enter_region(struct td* self)',
        must_fire={'self_call:ensure_has_control_block': 1, 'self_call:set_critical_region_flag': 1, 'subst:traits_region_extension': 2}),
     TD(id='leave_region', sig=r'void leave_region\(\)', c_sig='static void td_leave_region(struct td* self)',
-       must_fire={'self_call:clear_critical_region_flag': 1, 'subst:traits_region_extension': 1}),
+       must_fire={'self_call:clear_critical_region_flag': 1, 'subst:traits_region_extension': 2 if FIX_LAZY else 1, 'A_LOAD': 1 if FIX_LAZY else 0}),
     TD(id='enter_critical', sig=r'void enter_critical\(\)', c_sig='static void td_enter_critical(struct td* self)',
+       self_calls=dict(TDCALLS, do_enter_critical='CALL_do_enter_critical'),
        must_fire={'self_call:enter_region': 1, 'self_call:do_enter_critical': 1}),
     TD(id='leave_critical', sig=r'void leave_critical\(\)', c_sig='static void td_leave_critical(struct td* self)',
        must_fire={'self_call:clear_critical_region_flag': 1, 'self_call:leave_region': 1, 'subst:traits_region_extension': 1}),
@@ -92,7 +97,7 @@ SOURCES = [
        must_fire={'A_LOAD': 4, 'self_call:set_critical_region_flag': 2, 'self_call:update_local_epoch': 2, 'self_call:update_global_epoch': 1,
                   'method:scan': 1, 'subst:traits_scan_frequency': 1, 'subst:traits_region_extension': 2}),
     TD(id='update_local_epoch', sig=r'void update_local_epoch\(epoch_t new_epoch\)', c_sig='static void td_update_local_epoch(struct td* self, epoch_t new_epoch)',
-       must_fire={'A_LOAD': 1, 'A_STORE': 1, 'method:steal': 1, 'subst:delete_objects': 1, 'subst:min_int': 1, 'method:reset': 1, 'subst:mod_number_epochs': 1}),
+       must_fire={'A_LOAD': 1, 'A_STORE': 1, 'method:steal': 1, 'subst:delete_objects': 1, ('subst:min_epoch' if FIX_DISTANCE else 'subst:min_int'): 1, 'method:reset': 1, 'subst:mod_number_epochs': 1}),
     TD(id='update_global_epoch', sig=r'epoch_t update_global_epoch\(epoch_t curr_epoch, epoch_t new_epoch\)',
        c_sig='static epoch_t td_update_global_epoch(struct td* self, epoch_t curr_epoch, epoch_t new_epoch)',
        must_fire={'A_LOAD': 1, 'A_CAS': 1, 'A_FENCE': 1}),
@@ -125,13 +130,16 @@ SOURCES = [
          subst=[(r'Reclaimer::', '', 'reclaimer')], methods=TDMETH, must_fire={'method:begin': 1}),
     dict(id='scan_all_reset', file=IMPL, sig=r'void reset\(\)', which=0, c_sig='static void scan_all_reset(struct scan_all* self)', must_fire={}),
 ]
-if REPAIRED:
+if FIX_ORPHANS:
     SOURCES.append(TD(id='adopt_orphans', sig=r'detail::retired_nodes<> adopt_orphans\(epoch_t epoch\)',
                       c_sig='static struct rnodes td_adopt_orphans(struct td* self, epoch_t epoch)', dflt='xv_no_nodes',
-                      must_fire={'method:adopt': 1}))
+                      pre_subst=[(r'detail::retired_nodes<> nodes\{([^;]*), nullptr\};', r'struct rnodes nodes = {\1, 0};', 'aggregate_init'),
+                                 # the loop that walks the adopted chain to its last node: stub CHAIN_last (a chain is abstracted to its node set)
+                                 (r'for \(auto\* p = nodes\.first; p != nullptr; p = p->next\) \{\s*nodes\.last = p;\s*\}', 'nodes.last = CHAIN_last(nodes.first);', 'walk_to_last')],
+                      must_fire={'method:adopt': 1, 'subst:aggregate_init': 1, 'subst:walk_to_last': 1, 'subst:mod_number_epochs': 1}))
 else:
     SOURCES.append(TD(id='reclaim_orphans', sig=r'void reclaim_orphans\(epoch_t epoch\)', c_sig='static void td_reclaim_orphans(struct td* self, epoch_t epoch)',
-                      must_fire={'method:adopt': 1, 'subst:delete_objects': 1}))
+                      must_fire={'method:adopt': 1, 'subst:delete_objects': 1, 'subst:mod_number_epochs': 1}))
 
 
 RE = {'none': 0, 'eager': 1, 'lazy': 2}
@@ -150,13 +158,14 @@ for op in ['acquire', 'acquire_if_equal']:
     RUNS.append(R('g_' + op + '_int', 'h_g_' + op, mode='INT', cls='unbounded', note='other threads store arbitrary values to the source between the loads'))
 # thread_data level
 for re_, rv in RE.items():
+    RUNS.append(R('enter_' + re_, 'h_enter_critical', defs=dict(XV_REGION_EXT=rv, XV_STUB_DO_ENTER=1),
+                  note='do_enter_critical by contract (its precondition is checked at the call, ebr.enter.calls_pre)'))
     for sc, sd in SC.items():
         if sc == 'n3': continue
-        tiers = ('quick', 'thorough') if (sc in ('all', 'n1') or re_ == 'none') else ('thorough',)
-        RUNS.append(R('enter_%s_%s' % (re_, sc), 'h_enter_critical', defs=dict(sd, XV_REGION_EXT=rv, XV_STUB_UPDATE=1), tiers=tiers))
-    RUNS.append(R('enter_%s_all_int' % re_, 'h_enter_critical', mode='INT', defs=dict(SC['all'], XV_REGION_EXT=rv, XV_STUB_UPDATE=1),
-                  note='global epoch grows and the records of other threads change between any two atomic accesses'))
-    RUNS.append(R('enter_%s_n2_int' % re_, 'h_enter_critical', mode='INT', defs=dict(SC['n2'], XV_REGION_EXT=rv, XV_STUB_UPDATE=1), tiers=('thorough',)))
+        RUNS.append(R('do_enter_%s_%s' % (re_, sc), 'h_do_enter', mode='INT', defs=dict(sd, XV_REGION_EXT=rv, XV_STUB_UPDATE=1),
+                      tiers=('quick', 'thorough') if sc != 'n2' else ('thorough',),
+                      note='update_local_epoch / update_global_epoch by their exact contracts; the global epoch grows and the records of other threads change whenever they are read'))
+    RUNS.append(R('do_enter_%s_all_seq' % re_, 'h_do_enter', defs=dict(SC['all'], XV_REGION_EXT=rv, XV_STUB_UPDATE=1), tiers=('thorough',)))
     for ab, av in AB.items():
         RUNS.append(R('leave_%s_%s' % (re_, ab), 'h_leave_critical', defs=dict(XV_REGION_EXT=rv, XV_ABANDON=av)))
     RUNS.append(R('enter_region_%s' % re_, 'h_enter_region', defs=dict(XV_REGION_EXT=rv)))
@@ -165,7 +174,8 @@ for re_, rv in RE.items():
 RUNS.append(R('set_flag', 'h_set_flag'))
 RUNS.append(R('mod_lemma', 'h_mod_lemma', cls='unbounded', note='facts about % number_epochs that the ghost remainders of the other runs rely on'))
 for sc in ['all', 'n1']:
-    RUNS.append(R('update_local_epoch_' + sc, 'h_update_local_epoch', defs=SC[sc], note='all 64-bit old/new epochs with new > old'))
+    RUNS.append(R('update_local_epoch_' + sc, 'h_update_local_epoch', defs=SC[sc], note='all 64-bit old/new epochs with new > old',
+                  unwind_obligation='ebr.free.exact'))     # the loop running more than number_epochs times IS a violation of ebr.free.exact
     RUNS.append(R('acquire_cb_' + sc, 'h_acquire_cb', defs=SC[sc]))
 RUNS.append(R('acquire_cb_int', 'h_acquire_cb', mode='INT', defs=SC['n1']))
 RUNS.append(R('update_global_epoch', 'h_update_global_epoch'))
@@ -186,7 +196,12 @@ UNIT = dict(
         'a chain of deletable_objects is abstracted to the set of its nodes (32 ghost nodes, any distribution over the 3+3 lists - covers L <= 3 and more); '
         'thread_local local_thread_data and the inline static members are C globals; the lambda of all_threads::scan is lowered as a function of its own '
         'and std::any_of is a stub; the thread list is an array of E <= 3 records linked in order; guard level and thread_data level are verified separately '
-        '(guard functions against a counting stub of enter_critical/leave_critical/add_retired_node whose contract the thread_data runs prove)',
+        '(guard functions against a counting stub of enter_critical/leave_critical/add_retired_node whose contract the thread_data runs prove; '
+        'enter_critical with do_enter_critical by contract, do_enter_critical with update_local_epoch/update_global_epoch by their exact contracts - each contract is proved '
+        'for the real text by its own run and the precondition is checked at the call site); '
+        '`x % number_epochs` is lowered to XV_MOD_NE(x), which looks x up among ghost (value, remainder) anchors +-3: remainders are ghost values constrained only by '
+        'facts proved for the real % in run mod_lemma (SAT cannot do the modular reasoning on 64-bit divisions); a value that is not found is reported by ebr.conserve; '
+        'repaired tree only: the loop that walks the adopted orphan chain to its last node is the stub CHAIN_last',
   assumptions=[
     'stub retire_list/counting_retire_list push/steal/empty/size: conservation contract (unit rlist)',
     'stub orphan_list add/adopt: add splices the whole chain in, adopt takes everything, both atomic (unit rlist)',
@@ -228,7 +243,10 @@ UNIT = dict(
     'ebr.dtor.releases_record': dict(deciding=True, text='C17: ~thread_data releases the record exactly once with is_in_critical_region == false, so it never blocks a scan'),
     'ebr.adopt.reinit': dict(deciding=True, text='C17: acquire_control_block on an arbitrary left-over record: local_epoch == a freshly loaded global epoch, local_epoch_idx == local_epoch % number_epochs, scan strategy reset, flag false, retire lists empty; records are acquired only when the thread has none'),
     'ebr.model.mod_lemma': dict(deciding=False, text='model self-check: (x+-j) % number_epochs = ((x % number_epochs) +- j) mod number_epochs for j <= 3 without wrap-around; small values'),
+    'ebr.enter.calls_pre': dict(deciding=True, text='enter_critical calls do_enter_critical exactly on the 0 -> 1 transition of nested_critical_entries and in a state that satisfies the precondition assumed by the do_enter_critical runs'),
     'ebr.enter.invariant': dict(deciding=True, text='the thread_data representation invariant (counters vs flag per region_extension, epoch index, tags of all lists, local epoch <= global epoch) is preserved by every operation'),
   },
-  canaries=[],
+  replays={'ebr.free.three_epochs': dict(src='replay_update_local_epoch.cpp'), 'ebr.free.index_consistent': dict(src='replay_update_local_epoch.cpp'),
+           'ebr.free.exact': dict(src='replay_update_local_epoch.cpp'), 'ebr.orphans.slot': dict(src='replay_update_global_epoch.cpp')},
+  canaries=sorted(set(re.findall(r'XV_CANARY\("([^"]+)"\)', ''.join(open(os.path.join(os.path.dirname(os.path.abspath(__file__)) if '__file__' in globals() else '/verif/units/ebr', f)).read() for f in ('harness_guard.h', 'harness_td.h'))))),
 )
